@@ -2,7 +2,7 @@
    linear in the table values and the values on unit tables (what InterpND.training_gradients computes) are
    its coefficients. *)
 From Coq Require Import ZArith QArith Qabs List Bool Lia Lqa Field Qfield.
-From OMV Require Import Base.Val C15.Model C15.Proofs1D C16.Model.
+From OMV Require Import Base.Val C15.Model C15.Proofs1D C16.Model C16.Linear C16.ProofsCubic.
 Import ListNotations.
 Open Scope Z_scope.
 Open Scope Q_scope.
@@ -117,9 +117,6 @@ Qed.
 
 (* ------------------------------------------------------------------ linearity in the table values *)
 
-Definition linearL (L : list Q -> Q) : Prop :=
-  forall us vs ws a, (forall k, (0 <= k)%Z -> vq us k == a * vq vs k + vq ws k) ->
-                     L us == a * L vs + L ws.
 
 Lemma slinear1_linear g idx x : linearL (slinear1 g idx x).
 Proof.
@@ -212,16 +209,17 @@ Lemma linear_decomp L vs : linearL L ->
   L vs == dotq (map (fun k => L (unitn (length vs) k)) (seq 0 (length vs))) vs.
 Proof. intros HL. apply (linear_decomp_from L (length vs) HL vs 0%nat). lia. Qed.
 
-Definition linear_method (m : method) : Prop := m = Slinear \/ m = Lagrange2 \/ m = Lagrange3.
+Definition linear_method (m : method) : Prop := m = Slinear \/ m = Lagrange2 \/ m = Lagrange3 \/ m = Cubic.
 
 Lemma interp1_linear m g idx x :
   linear_method m -> (kmin m <= zlen g)%Z -> (0 <= idx)%Z -> linearL (interp1 m g idx x).
 Proof.
   intros Hm Hn Hi us vs ws a H. unfold interp1. rewrite !Qred_correct.
-  destruct Hm as [-> | [-> | ->]]; simpl in Hn.
+  destruct Hm as [-> | [-> | [-> | ->]]]; simpl in Hn.
   - now apply slinear1_linear.
   - now apply lagrange2_1_linear.
   - now apply lagrange3_1_linear.
+  - now apply cubic1_linear.
 Qed.
 
 (* interp (a*v + w) = a*interp v + interp w *)
